@@ -417,6 +417,53 @@ func RunC05(t *testing.T, registry map[int]lexer.Definition, dataFile string) {
 				break
 			}
 		}
+		// LexBytes of the generated lexer: the buffer is the caller's and is overwritten once the lexer exists
+		if bd, ok := gen.(lexer.BytesDefinition); ok {
+			for i := 0; !failed && i < len(d.InputHex) && i < 4; i++ {
+				raw, _ := hex.DecodeString(d.InputHex[i])
+				in := string(raw)
+				want := drain(gen, in, 0)
+				if want.hung || want.panicMsg != "" {
+					break
+				}
+				var got lexOut
+				func() {
+					defer func() {
+						if rec := recover(); rec != nil {
+							got.panicMsg = fmt.Sprint(rec)
+						}
+					}()
+					buf := []byte(in)
+					l, err := bd.LexBytes("f", buf)
+					for j := range buf {
+						buf[j] = '#'
+					}
+					if err != nil {
+						got.err = err
+						return
+					}
+					for {
+						tk, err := l.Next()
+						if err != nil {
+							got.err = err
+							return
+						}
+						got.toks = append(got.toks, tk)
+						if tk.EOF() || len(got.toks) > len(in)+4 {
+							return
+						}
+					}
+				}()
+				r.Count("lexbytes_then_buffer_reused")
+				same := got.panicMsg == "" && fmt.Sprint(got.err) == fmt.Sprint(want.err) && len(got.toks) == len(want.toks)
+				for j := 0; same && j < len(got.toks); j++ {
+					same = got.toks[j] == want.toks[j]
+				}
+				if !same {
+					fail(d, d.InputHex[i], fmt.Sprintf("generated lexer: LexBytes, after the caller overwrote its buffer, yields %d tokens (err %v, panic %q); LexString yields %d tokens (err %v)\ninput %q\n%s", len(got.toks), got.err, got.panicMsg, len(want.toks), want.err, in, d.RS.String()))
+				}
+			}
+		}
 		// the reader entry point of the generated lexer, with a reader the caller has already read from
 		for i := 0; !failed && i < len(d.InputHex) && i < 6; i++ {
 			raw, _ := hex.DecodeString(d.InputHex[i])
